@@ -20,8 +20,15 @@ func c13Race(thorough bool, shard, nshards int) {
 	}
 	runtime.GOMAXPROCS([]int{2, 4, 16}[shard%3])
 	var w envrun.WorkerResult
-	for _, sc := range scenarios() {
-		want, _, _ := sequentialResults(sc)
+	scs := scenarios()
+	// every process starts with a different scenario, so that each one is at some
+	// point the first user of the cold process-wide caches
+	rot := shard % len(scs)
+	scs = append(scs[rot:], scs[:rot]...)
+	for _, sc := range scs {
+		// The concurrent iterations come first (cold caches); the sequential
+		// reference is computed afterwards.
+		var all [][]string
 		for it := 0; it < iters; it++ {
 			bodies, shared := sc.setup()
 			before := shared()
@@ -44,12 +51,16 @@ func c13Race(thorough bool, shard, nshards int) {
 			start.Done()
 			done.Wait()
 			w.Executions++
-			if strings.Join(res, "\x00") != strings.Join(want, "\x00") {
-				w.Failures = append(w.Failures, envrun.Failure{Key: sc.name + " [free run]", What: fmt.Sprintf("concurrent results %q differ from sequential results %q", res, want)})
-				break
-			}
+			all = append(all, res)
 			if shared() != before {
 				w.Failures = append(w.Failures, envrun.Failure{Key: sc.name + " [free run, shared input]", What: "a shared input was modified"})
+				break
+			}
+		}
+		want, _, _ := sequentialResults(sc)
+		for _, res := range all {
+			if strings.Join(res, "\x00") != strings.Join(want, "\x00") {
+				w.Failures = append(w.Failures, envrun.Failure{Key: sc.name + " [free run]", What: fmt.Sprintf("concurrent results %q differ from sequential results %q", res, want)})
 				break
 			}
 		}
